@@ -359,3 +359,11 @@ Lemma splits_is_zero n a b :
 Proof.
   rewrite in_splits. intros (La & Lb & <-). apply is_zero_padd. congruence.
 Qed.
+
+(** arithmetic used by the half-sum lemma (kept here so that [lia] sees plain nat) *)
+Lemma deg_split_cases m dx dy dn :
+  dx + dy = dn -> dn < S m -> dx = 0 \/ dy = 0 \/ (dx < m /\ dy < m).
+Proof. lia. Qed.
+
+Lemma deg_lt1 d : d < 1 <-> d = 0.
+Proof. lia. Qed.
